@@ -211,7 +211,8 @@ def prepare_cli_case(case):
         # the file stores integer nanoseconds: the loaded stamp is float(ns)/1e9 (C07 decides that conversion)
         ns = [int(round(t * 1e9)) for t in ref[0]]
         ref = (np.array([float(v) for v in ns]) / 1e9, ref[1], ref[2])
-    cfg = pipeline.write_cfg(d)
+    pl = c["opts"].get("plot") or {}
+    cfg = pipeline.write_cfg(d, {"plot_trajectory_length_unit": pl["len_unit"]} if pl.get("len_unit") else None)
     return c, d, ref, est, files, cfg
 
 
@@ -223,6 +224,10 @@ def run_cli_case(case, app="ape", extra_argv=(), prepared=None, tag=""):
         c = dict(c, opts=dict(case["opts"], t_offset=c["opts"].get("t_offset", 0.0)))
         if c["fmt"] == "kitti":
             c["opts"]["t_offset"] = 0.0
+        if c["opts"].get("plot"):
+            # the -c file (written once for these files) fixes the plot length unit of every run
+            first_unit = ((prepared[0]["opts"].get("plot") or {}).get("len_unit"))
+            c["opts"]["plot"] = dict(c["opts"]["plot"], len_unit=first_unit)
     out_zip = os.path.join(d, "out%s.zip" % tag)
     argv = pipeline.base_argv(c, files, out_zip, cfg) + list(extra_argv)
     out = cli.run(app, argv, cwd=d)
@@ -299,12 +304,39 @@ def _check_cli_run_inner(run):
     if sest["T"] is not None:
         if not np.array_equal(np.asarray(arch["arrays"]["timestamps"]), sest["T"]):
             raise Mismatch("timestamps array of the archive is not the stored estimate's stamps", observed="timestamps")
+    if CHECK_COMPANIONS[0] and sest["T"] is not None:
+        # C12's clause, judged when C12 drives this checker: every companion array has one entry per value and refers to
+        # the pose the value belongs to (seconds / path length from the start of the STORED trajectories, in metres)
+        n = len(got)
+        for key, exp_arr in (("seconds_from_start", sest["T"] - sest["T"][0]),
+                             ("distances_from_start", np.asarray(rm.accumulated(sref["P"]))), ("distances", np.asarray(rm.accumulated(sest["P"])))):
+            if key not in arch["arrays"]:
+                raise Mismatch("archive lacks the companion array %s" % key, observed="companion_missing", key=key)
+            a = np.asarray(arch["arrays"][key], dtype=float)
+            if a.shape != (n,):
+                raise Mismatch("companion array %s has %s entries for %d error values" % (key, a.shape, n), observed="companion_length", key=key)
+            tolc = 1e-9 * (float(np.abs(exp_arr).max()) if n else 0.0) + 1e-12
+            if float(np.abs(a - exp_arr).max(initial=0.0)) > tolc:
+                k = int(np.argmax(np.abs(a - exp_arr)))
+                raise Mismatch("companion array %s[%d] = %r, the stored trajectories give %r" % (key, k, float(a[k]), float(exp_arr[k])),
+                               observed="companion_value", key=key)
     st_ref = rm.statistics(got)
     for k, v in st_ref.items():
         if not abs(float(arch["stats"][k]) - v) <= 1e-9 * max(abs(v), abs(float(arch["stats"][k]))) + 1e-300 + (1e-9 * abs(st_ref["mean"]) if k == "std" else 0):
             raise Mismatch("stats.json %s = %r, values give %r" % (k, arch["stats"][k], v), observed="stats")
     active = [k for k in ("align", "correct_scale", "align_origin", "downsample", "motion_filter", "t_start", "t_end", "project", "change_unit") if o.get(k)]
     return "cli/%s/%d_opts" % (fmt, min(len(active), 3))
+
+
+CHECK_COMPANIONS = [False]
+
+
+def sub_cli_with_companions(case):
+    CHECK_COMPANIONS[0] = True
+    try:
+        return sub_cli(case)
+    finally:
+        CHECK_COMPANIONS[0] = False
 
 
 def _mk_cli_case(fmt, data, relation, align_mode, correct_scale, n_to_align, downsample, mf, tmd, toff, crop, project, unit, plot=None):
@@ -344,22 +376,29 @@ st_data = st.fixed_dictionaries({
 _st_cli_opts = (
     st.sampled_from(sorted(pipeline.REL_CLI)),
     st.sampled_from(["none", "align", "origin"]), st.booleans(), st.sampled_from([-1, -1, 3, 5, 10]), st.sampled_from([None, None, 3, 10, 1000, "n", "n+2"]),
-    st.sampled_from([None, None, [0.1, 5.0], [1.0, 0.5], [0.0, 0.0]]), st.sampled_from([0.01, 0.01, 0.005, 0.02]),
+    st.sampled_from([None, None, [0.1, 5.0], [1.0, 0.5], [0.0, 0.0]]), st.sampled_from([0.01, 0.01, 0.005, 0.02, 0.0]),
     st.sampled_from([0.0, 0.0, 0.5, -2.25]), st.one_of(st.none(), st.tuples(st.integers(0, 40), st.integers(0, 40), st.booleans(), st.booleans())),
     st.sampled_from([None, None, "xy", "xz", "yz"]), st.sampled_from([None, None, "mm", "cm", "km"]),
     st.one_of(st.none(), st.none(), st.none(), st.none(), st.none(), st.fixed_dictionaries({
         "x": st.sampled_from(["index", "seconds", "distances"]), "mode": st.sampled_from(["xy", "xyz", "zx"]),
-        "pct": st.sampled_from([None, 50, 90, 100]), "cmin": st.sampled_from([None, 0.0])})))
+        "pct": st.sampled_from([None, 50, 90, 100]), "cmin": st.sampled_from([None, 0.0]), "len_unit": st.sampled_from([None, None, "km", "mm"])})))
 
 
 @st.composite
-def st_cli(draw, force_plot=False):
+def st_cli(draw, force_plot=False, force_crop=False):
     fmt = draw(st.sampled_from(["tum", "tum", "euroc", "kitti"]))
     data = draw(st_data)
     case = _mk_cli_case(fmt, data, *[draw(x) for x in _st_cli_opts])
     if force_plot and not case["opts"].get("plot"):
         case["opts"]["plot"] = {"x": draw(st.sampled_from(["index", "seconds", "distances"])), "mode": draw(st.sampled_from(["xy", "xyz"])),
-                                "pct": draw(st.sampled_from([None, 50, 90])), "cmin": None}
+                                "pct": draw(st.sampled_from([None, 50, 90])), "cmin": None, "len_unit": draw(st.sampled_from([None, "km", "mm"]))}
+    if force_crop and fmt != "kitti" and case["opts"].get("t_start") is None and case["opts"].get("t_end") is None:
+        n, t0, dt = data["n"], data["t0"], data["dt"]
+        a = draw(st.integers(1, max(1, n - 2)))
+        if draw(st.booleans()):
+            case["opts"]["t_start"] = t0 + (a - 0.5) * dt
+        else:
+            case["opts"]["t_end"] = t0 + (a + 0.5) * dt
     # one case in four evaluates the same files again (same process) with other options
     k = draw(st.sampled_from([0, 0, 0, 1, 2])) if draw(st.booleans()) else 0
     if k:
